@@ -2,7 +2,9 @@ package main
 
 import (
 	"bytes"
+	"crypto"
 	stded "crypto/ed25519"
+	"fmt"
 	"math/big"
 
 	"github.com/cloudflare/pat-go/ed25519"
@@ -83,6 +85,47 @@ func runC14Part(c *h.Ctx, part int) {
 			continue
 		}
 		pub := []byte(priv[32:])
+		// --- the key types' methods, in lockstep with crypto/ed25519: Public, Seed, Equal, crypto.Signer -----------------
+		{
+			c.Count("api:key-methods", 6, h.Hex(seed))
+			gp, ok1 := priv.Public().(ed25519.PublicKey)
+			sp, ok2 := stdPriv.Public().(stded.PublicKey)
+			if !ok1 || !ok2 || !bytes.Equal(gp, sp) || !bytes.Equal(priv.Seed(), stdPriv.Seed()) || !bytes.Equal(priv.Seed(), seed) {
+				c.Violation("Public() and Seed() return what crypto/ed25519 returns", map[string]any{"seed": h.Hex(seed)})
+			}
+			// the returned slices are copies: writing to them does not change the key
+			gp[0] ^= 1
+			priv.Seed()[0] ^= 1
+			if !bytes.Equal(priv, stdPriv) {
+				c.Violation("Public() / Seed() hand out copies, not views of the private key", map[string]any{"seed": h.Hex(seed)})
+			}
+			other := ed25519.NewKeyFromSeed(rnd(c, 32))
+			otherStd := stded.PrivateKey(append([]byte{}, other...))
+			eq := []bool{priv.Equal(priv), priv.Equal(other), priv.Equal(ed25519.PrivateKey(append([]byte{}, priv...))), priv.Equal(stdPriv), priv.Equal([]byte(priv)),
+				ed25519.PublicKey(pub).Equal(ed25519.PublicKey(append([]byte{}, pub...))), ed25519.PublicKey(pub).Equal(other.Public()), ed25519.PublicKey(pub).Equal(priv)}
+			eqStd := []bool{stdPriv.Equal(stdPriv), stdPriv.Equal(otherStd), stdPriv.Equal(stded.PrivateKey(append([]byte{}, stdPriv...))), stdPriv.Equal(priv), stdPriv.Equal([]byte(stdPriv)),
+				stded.PublicKey(pub).Equal(stded.PublicKey(append([]byte{}, pub...))), stded.PublicKey(pub).Equal(otherStd.Public()), stded.PublicKey(pub).Equal(stdPriv)}
+			for i := range eq {
+				if eq[i] != eqStd[i] {
+					c.Violation("Equal agrees with crypto/ed25519 (same value / other value / copy / foreign type)", map[string]any{"case": i, "fork": eq[i], "std": eqStd[i]})
+				}
+			}
+			msg := rnd(c, 33)
+			for _, opt := range []crypto.SignerOpts{crypto.Hash(0), crypto.SHA512, crypto.SHA256, &stded.Options{}} {
+				var s1, s2 []byte
+				var e1, e2 error
+				p1, _ := h.Protect(func() { s1, e1 = priv.Sign(nil, msg, opt) })
+				p2, _ := h.Protect(func() { s2, e2 = stdPriv.Sign(nil, msg, opt) })
+				// the fork predates Ed25519ph / Ed25519ctx: for plain Ed25519 options the outcome must be crypto/ed25519's
+				if opt.HashFunc() == crypto.Hash(0) || opt.HashFunc() == crypto.SHA256 {
+					if p1 != p2 || (e1 == nil) != (e2 == nil) || !bytes.Equal(s1, s2) {
+						c.Violation("PrivateKey.Sign (crypto.Signer) agrees with crypto/ed25519 for unhashed messages and refuses pre-hashed ones", map[string]any{"hash": fmt.Sprint(opt.HashFunc()), "fork_err": fmt.Sprint(e1), "std_err": fmt.Sprint(e2)})
+					}
+				} else if !p1 && e1 == nil && !bytes.Equal(s1, s2) {
+					c.Violation("PrivateKey.Sign with a pre-hash option returns a signature crypto/ed25519 does not produce", map[string]any{"hash": fmt.Sprint(opt.HashFunc())})
+				}
+			}
+		}
 		for _, ml := range msgLens {
 			if !c.Thorough() && (ml+si+part)%2 != 0 && ml < 4000 {
 				continue
